@@ -34,7 +34,9 @@ Kinds == <<
     I({}, {"ip"}, {}, {}, FALSE, FALSE, FALSE, 4),           \* 13  ip := next (no real target)
     I({"a"}, {"ip"}, {}, {}, FALSE, FALSE, TRUE, 4),         \* 14  conditional jump (last only)
     I({}, {"b"}, {"n"}, {}, FALSE, FALSE, FALSE, 4),         \* 15  b := load n (second memory)
-    I({"c"}, {}, {}, {"n"}, FALSE, FALSE, FALSE, 2)          \* 16  store n := c
+    I({"c"}, {}, {}, {"n"}, FALSE, FALSE, FALSE, 2),         \* 16  store n := c
+    I({"b"}, {}, {}, {"m"}, FALSE, FALSE, FALSE, 4),         \* 17  store m[b] := const   (address from a register)
+    I({"b"}, {"a"}, {"m"}, {}, FALSE, FALSE, FALSE, 4)       \* 18  a := load m[b]
 >>
 
 Blocks(n) == [1..n -> KindSet]
